@@ -28,9 +28,11 @@ package layer2
 //@   ensures [reason] result == dropReasonNone || result == dropReasonAnnounceIP || result == dropReasonNotMatchInterface
 //@   ensures [unlocked] lockstate(a.RWMutex) == 0
 //@   modifies $held, fresh *IPAdvertisement
+//@   loop 1 binds ipAdvertisements
 //@   loop 1 invariant lockstate(a.RWMutex) == 1
 //@   loop 1 invariant forall s string, k int :: (s in visited) && Entry(a, s, k) && a.ips[s][k].ip.Equal(ip) ==> !Covers(a.ips[s][k], intf)
 //@   loop 1 invariant ipFound == (exists s string, k int :: (s in visited) && Entry(a, s, k) && a.ips[s][k].ip.Equal(ip))
+//@   loop 2 binds i
 //@   loop 2 invariant lockstate(a.RWMutex) == 1 && (curkey(1) in a.ips) && (curkey(1) in visited(1)) && sameSlice(ipAdvertisements, a.ips[curkey(1)])
 //@   loop 2 invariant forall s string, k int :: (s in visited(1)) && s != curkey(1) && Entry(a, s, k) && a.ips[s][k].ip.Equal(ip) ==> !Covers(a.ips[s][k], intf)
 //@   loop 2 invariant forall k int :: 0 <= k && k < iter && ipAdvertisements[k].ip.Equal(ip) ==> !Covers(ipAdvertisements[k], intf)
@@ -74,8 +76,10 @@ package layer2
 //@       && (forall j int :: old(Entry(a, name, j)) ==> !old(a.ips[name][j].ip.Equal(adv.ip))))
 //@   ensures [others] forall s string, k int :: s != name ==> (s in a.ips) == old(s in a.ips) && Entry(a, s, k) == old(Entry(a, s, k)) && (Entry(a, s, k) ==> a.ips[s][k] == old(a.ips[s][k]))
 //@   modifies $held, map(a.ips), map(a.ipRefcnt), elems(a.ips[name]), fresh []IPAdvertisement, map[string]int64, fresh []interface{}
+//@   loop 2 binds client
 //@   loop 2 invariant forall x string :: a.ipRefcnt[x] == old(a.ipRefcnt[x]) + ite(x == net.ipstr(adv.ip), 1, 0)
 //@   assert after Equal#1: [found] ret ==> old(HasStr(a, name, net.ipstr(adv.ip)))
+//@   loop 1 binds i
 //@   loop 1 invariant lockstate(a.RWMutex) == 2 && AnnInv(a) && (name in a.ips) && sameSlice(ipAdvertisements, a.ips[name])
 //@   loop 1 invariant forall j int :: 0 <= j && j < iter ==> !a.ips[name][j].ip.Equal(adv.ip)
 //@   loop 1 invariant forall s string, k int :: (s in a.ips) == old(s in a.ips) && Entry(a, s, k) == old(Entry(a, s, k)) && (Entry(a, s, k) ==> a.ips[s][k] == old(a.ips[s][k]))
@@ -91,10 +95,12 @@ package layer2
 //@   ensures [refcnt] forall x string :: a.ipRefcnt[x] == old(a.ipRefcnt[x]) - ite(old(HasStr(a, name, x)), 1, 0)
 //@   ensures [others] forall s string, k int :: s != name ==> (s in a.ips) == old(s in a.ips) && Entry(a, s, k) == old(Entry(a, s, k)) && (Entry(a, s, k) ==> a.ips[s][k] == old(a.ips[s][k]))
 //@   modifies $held, map(a.ips), map(a.ipRefcnt), map[string]int64, fresh []interface{}
+//@   loop 2 binds client
 //@   loop 2 invariant 0 <= idx(1) && idx(1) < len(advs) && AnnInv(a) && !(name in a.ips)
 //@   loop 2 invariant old(name in a.ips) && sameSlice(advs, old(a.ips[name])) && (forall k int :: 0 <= k && k < len(advs) ==> advs[k] == old(a.ips[name][k]))
 //@   loop 2 invariant forall x string :: a.ipRefcnt[x] == old(a.ipRefcnt[x]) - ite((exists k int :: 0 <= k && k <= idx(1) && net.ipstr(advs[k].ip) == x), 1, 0)
 //@   loop 2 invariant forall s string, k int :: s != name ==> (s in a.ips) == old(s in a.ips) && Entry(a, s, k) == old(Entry(a, s, k)) && (Entry(a, s, k) ==> a.ips[s][k] == old(a.ips[s][k]))
+//@   loop 1 binds cur
 //@   loop 1 invariant lockstate(a.RWMutex) == 2 && AnnInv(a) && !(name in a.ips)
 //@   loop 1 invariant old(name in a.ips) && sameSlice(advs, old(a.ips[name])) && (forall k int :: 0 <= k && k < len(advs) ==> advs[k] == old(a.ips[name][k]))
 //@   loop 1 invariant forall x string :: a.ipRefcnt[x] == old(a.ipRefcnt[x]) - ite((exists k int :: 0 <= k && k < iter && net.ipstr(advs[k].ip) == x), 1, 0)
